@@ -35,7 +35,7 @@ PROPS = {
         "scenarios": [
             {"name": "alias-res", "quick": 30000, "thorough": 3000000, "thorough_time": 200, "extra": ["-sim.only=message-changed,read-changed-store,caller-mutation-visible"]},
             {"name": "alias-models", "quick": 40000, "thorough": 3000000, "thorough_time": 300, "extra": ["-sim.only=message-changed,read-changed-store,caller-mutation-visible"]},
-            {"name": "alias-tween", "quick": 8000, "thorough": 300000, "thorough_time": 40, "extra": ["-sim.only=caller-mutation-visible"]},
+            {"name": "alias-tween", "quick": 8000, "thorough": 100000, "thorough_time": 30, "extra": ["-sim.only=caller-mutation-visible"]},
         ],
         "require_hits": ["caller-mutate"],
         "assumptions": ["wrapped RPC paths are deliberately not used here: wrap copies messages and would hide model-level aliasing"],
@@ -213,7 +213,7 @@ PROPS = {
             {"name": "lin-value", "quick": 40000, "thorough": 3000000, "thorough_time": 200},
             {"name": "lin-coll", "quick": 40000, "thorough": 3000000, "thorough_time": 200},
             {"name": "lin-count", "quick": 20000, "thorough": 1000000, "thorough_time": 60},
-            {"name": "lin-tween", "quick": 10000, "thorough": 500000, "thorough_time": 60, "extra": ["-sim.only=lost-update,write-hangs,get-failed,panic,internal-panic"]},
+            {"name": "lin-tween", "quick": 10000, "thorough": 150000, "thorough_time": 40, "extra": ["-sim.only=lost-update,write-hangs,get-failed,panic,internal-panic"]},
             {"name": "lin-hail", "quick": 10000, "thorough": 500000, "thorough_time": 40},
             {"name": "lin-delta", "quick": 10000, "thorough": 500000, "thorough_time": 40},
         ],
